@@ -10,6 +10,7 @@ Search: the property predicate (specification vs the feature the implementation 
 evaluated on every one of those implementation outputs."""
 import os
 import re
+import time
 
 import common as C
 from common import nlist
@@ -48,7 +49,9 @@ def seq_of(n, idx):
 
 
 def ctx_of(k):
-    return [] if k == 0 else [k - 1]
+    if k == 0:
+        return []
+    return [k - 1] if k <= 8 else [(k - 9) // 8, (k - 9) % 8]
 
 
 def hexs(cps):
@@ -80,8 +83,12 @@ def describe(binp, pre, text, post, acts):
             ls = C.parse_eval_lists(C.coq_eval("c11_describe", body))
             d["specification_actions"] = [acts.get(a, a) for a in ls[0]]
             d["model_actions"] = [acts.get(a, a) for a in ls[1]]
+            d["specification_features"] = [(x.lower() if x != "NONE" else "-") if isinstance(x, str) else x for x in d["specification_actions"]]
             if isinstance(real["actions"], list) and real["actions"][:1] != ["panic"]:
                 d["implementation_actions"] = [acts.get(a, a) for a in real["actions"]]
+                d["implementation_features"] = real["features"]
+            d["differs"] = (d.get("implementation_actions") != d["specification_actions"]
+                            or d.get("implementation_features") != d["specification_features"])
         except Exception as ex:  # noqa
             d["describe_error"] = str(ex)[-400:]
     return d
@@ -96,9 +103,9 @@ def feat_table(binp):
     return "[%s]" % "; ".join(F)
 
 
-def exhaustive(chk, binp, maxlen, F):
+def exhaustive(chk, binp, maxlen, F, nctx=9, tag="exh"):
     """Returns (model_failures, spec_failures, anomalies); each failure = (n, pre, post, idx)."""
-    out = rbv(binp, ["exh", "--maxlen", str(maxlen), "--chunk", "32768"], timeout=1800)
+    out = rbv(binp, ["exh", "--maxlen", str(maxlen), "--chunk", "32768", "--nctx", str(nctx)], timeout=1800)
     blocks = []
     anomalies = []
     cases = joined = 0
@@ -140,24 +147,25 @@ def exhaustive(chk, binp, maxlen, F):
         body += "Definition F : list (option N) := %s.\n" % F
         body += "Eval vm_compute in (check_blocks blk_model blocks 0).\n"
         body += "Eval vm_compute in (check_blocks (blk_spec F) blocks 0).\n"
-        jobs.append(("c11_exh_%d" % fi, body))
+        jobs.append(("c11_%s_%d" % (tag, fi), body))
     res = C.coq_eval_many(jobs, timeout=1500)
     mf, sf, broken = [], [], []
     for fi, bl in enumerate(files):
-        o = res.get("c11_exh_%d" % fi)
+        o = res.get("c11_%s_%d" % (tag, fi))
         if isinstance(o, Exception):
-            broken.append({"what": "cases-file-failed", "file": "c11_exh_%d" % fi, "error": str(o)[-600:]})
+            broken.append({"what": "cases-file-failed", "file": "c11_%s_%d" % (tag, fi), "error": str(o)[-600:]})
             continue
         ls = C.parse_eval_lists(o)
         if len(ls) != 2:
-            broken.append({"what": "no-answer", "file": "c11_exh_%d" % fi})
+            broken.append({"what": "no-answer", "file": "c11_%s_%d" % (tag, fi)})
             continue
         for dst, l in ((mf, ls[0]), (sf, ls[1])):
             for k in range(0, len(l) - 1, 2):
                 b = bl[l[k]]
                 dst.append((b[0], b[1], b[2], l[k + 1]))
     chk.add_eval(2 * cases, joined)
-    chk.note("exhaustive", {"max_text_length": maxlen, "alphabet": REP_NAMES, "contexts": "every pre/post context of length 0 or 1",
+    chk.note("exhaustive" if nctx == 9 else "exhaustive_contexts_of_length_2",
+             {"max_text_length": maxlen, "alphabet": REP_NAMES, "contexts": "every pre/post context of length 0 or 1" if nctx == 9 else "every pre/post context of length 0, 1 or 2",
                             "sequences": cases, "with_a_joined_form": joined, "cases_files": len(files)})
     return mf, sf, anomalies, broken
 
@@ -281,16 +289,29 @@ def type_cases(chk, binp):
     return dis
 
 
-def search_model_vs_spec(maxlen):
-    """Shortest class sequence on which the automaton over the current table differs from the specification."""
-    body = HDR + "Eval vm_compute in (search_lens %s).\n" % nlist(range(0, maxlen + 1))
-    try:
-        ls = C.parse_eval_lists(C.coq_eval("c11_search", body, timeout=1200))
-    except Exception as ex:  # noqa
-        return {"error": str(ex)[-400:]}
-    if ls and len(ls[0]) == 4:
-        n, p, q, idx = ls[0]
+def search_model_vs_spec(minlen, maxlen):
+    """Shortest class sequence (text length in minlen..maxlen, contexts of length 0/1) on which the automaton over the
+    current table differs from the specification; evaluated by vm_compute, one job per (length, pre-context)."""
+    jobs = []
+    for n in range(minlen, maxlen + 1):
+        for p in range(9):
+            body = HDR + "Eval vm_compute in (search_pairs %d [%s]).\n" % (n, "; ".join("(%d, %d)" % (p, q) for q in range(9)))
+            jobs.append(("c11_search_%d_%d" % (n, p), body))
+    res = C.coq_eval_many(jobs, timeout=1200)
+    found = []
+    errs = []
+    for name, o in res.items():
+        if isinstance(o, Exception):
+            errs.append(str(o)[-300:])
+            continue
+        ls = C.parse_eval_lists(o)
+        if ls and len(ls[0]) == 4:
+            found.append(tuple(ls[0]))
+    if found:
+        n, p, q, idx = min(found, key=lambda f: (f[0] + len(ctx_of(f[1])) + len(ctx_of(f[2])), f))
         return {"n": n, "pre": p, "post": q, "idx": idx}
+    if errs:
+        return {"error": errs[0]}
     return None
 
 
@@ -310,6 +331,7 @@ def run(chk):
                        "non-trivial = the sequence contains at least one joined form (init/medi/fina/fin2/fin3/med2); for joining types: characters "
                        "whose class is not U" % maxlen)
     pr = chk.prove(extra_targets=["Corr/JoiningC.vo"])
+    C.log("C11: proofs done %.1fs" % (time.time() - chk.t0))
     acts, jts = gen_numbers()
     broken = []
     if chk.guards_failed:
@@ -321,6 +343,7 @@ def run(chk):
         if not okc:
             broken.append("corr-build-failed: " + logc[-400:])
     ok, binp, blog = C.cargo_build("release", hooks=True)
+    C.log("C11: harness built %.1fs" % (time.time() - chk.t0))
     dis, fails = [], []
     if not ok:
         broken.append("hook-build-failed: " + blog[-600:])
@@ -346,11 +369,15 @@ def run(chk):
         F = feat_table(binp)
         # ---- exhaustive
         mf, sf, anomalies, br = exhaustive(chk, binp, maxlen, F)
+        C.log("C11: exhaustive done %.1fs" % (time.time() - chk.t0))
+        mfb, sfb, anb, brb = exhaustive(chk, binp, 3 if thorough else 2, F, nctx=73, tag="exh2")
+        C.log("C11: exhaustive (contexts of length 2) done %.1fs" % (time.time() - chk.t0))
+        mf, sf, anomalies, br = mf + mfb, sf + sfb, anomalies + anb, br + brb
         dis += br
         for a in anomalies[:5]:
             fails.append({"what": "implementation-anomaly", "input": a, "note": "panic or an action outside 0..7 from arabic_joining"})
-        sf.sort(key=lambda f: (f[0], f[1] + f[2], f[1], f[2], f[3]))
-        mf.sort(key=lambda f: (f[0], f[1] + f[2], f[1], f[2], f[3]))
+        sf.sort(key=lambda f: (f[0] + len(ctx_of(f[1])) + len(ctx_of(f[2])), f[0], f[1], f[2], f[3]))
+        mf.sort(key=lambda f: (f[0] + len(ctx_of(f[1])) + len(ctx_of(f[2])), f[0], f[1], f[2], f[3]))
         for f in sf[:3]:
             p, t, q = exh_to_cps(f)
             d = describe(binp, p, t, q, acts)
@@ -375,15 +402,16 @@ def run(chk):
         for c in (mf2 + mf3)[:3]:
             dis.append({"what": "model-differs-from-implementation", "pre": hexs(c["pre"]), "text": hexs(c["text"]), "post": hexs(c["post"]),
                         "classes": [c["cp"], c["ct"], c["cq"]], "implementation_actions": c["obs"]})
+        C.log("C11: random done %.1fs" % (time.time() - chk.t0))
         # ---- masks, joining types
         dis += mask_cases(chk, binp, 3000 if thorough else 800)
         dis += type_cases(chk, binp)
     # ---- proof broken (or tie broken): look for the shortest sequence on which automaton and specification differ,
     #      and run it on the real code
     if (broken or dis) and ok:
-        s = search_model_vs_spec(4)
+        s = search_model_vs_spec(0, 4)
         if s is None and not pr["ok"]:
-            s = search_model_vs_spec(6 if thorough else 5)
+            s = search_model_vs_spec(5, 6 if thorough else 5)
         chk.note("model_vs_spec_search", s if s else "no disagreement up to the searched length")
         if s and "n" in s:
             p, t, q = exh_to_cps((s["n"], s["pre"], s["post"], s["idx"]))
@@ -391,8 +419,9 @@ def run(chk):
             d["classes"] = {"pre": [REP_NAMES[k] for k in ctx_of(s["pre"])], "text": [REP_NAMES[k] for k in seq_of(s["n"], s["idx"])],
                             "post": [REP_NAMES[k] for k in ctx_of(s["post"])]}
             d["broken"] = broken
-            impl_bad = d.get("implementation_actions") != d.get("specification_actions")
+            impl_bad = d.get("differs", True)
             d["what"] = "automaton-differs-from-specification"
+            d["broken"] = broken
             if impl_bad:
                 d["note"] = "the shortest class sequence on which the table-driven automaton (current STATE_TABLE) and the specification differ; the real code, run on it through the hook, also differs from the specification"
                 if not any(x.get("text") == d["text"] and x.get("pre") == d["pre"] and x.get("post") == d["post"] for x in fails):
@@ -402,6 +431,7 @@ def run(chk):
     chk.note("correspondence_disagreements", len(dis))
     seen = set()
     for f in fails:
+        f.setdefault("also_broken", broken)
         key = (str(f.get("pre")), str(f.get("text")), str(f.get("post")), f.get("input"))
         if key in seen:
             continue
@@ -440,6 +470,6 @@ def replay(chk, path):
     cp = lambda l: [int(x[2:], 16) for x in l]
     d = describe(binp, cp(body.get("pre", [])), cp(body["text"]), cp(body.get("post", [])), acts)
     print("NOW:", json.dumps(d, indent=1))
-    bad = d.get("implementation_actions") != d.get("specification_actions")
+    bad = d.get("differs", True)
     print("STILL FAILING" if bad else "no longer failing")
     return 1 if bad else 0
